@@ -402,6 +402,9 @@ pub fn scenario(open: BTreeSet<String>, followers: usize) -> ReplScenario {
     ops.push(LOp::Api(Op::CSet(0, s("c"), json!(1), 0)));
     ops.push(LOp::Api(Op::CSet(1, s("c"), json!(2), 1)));
     ops.push(LOp::Api(Op::CSet(1, s("c"), json!(3), 7)));
+    // accepted compare-and-sets that leave the value as it is: only the version moves
+    ops.push(LOp::Api(Op::CSet(1, s("c"), json!(1), 1)));
+    ops.push(LOp::Api(Op::CSet(0, s("a"), json!(1), 0)));
     ops.push(LOp::Api(Op::Set(0, s("c"), json!(9))));
     ops.push(LOp::Api(Op::Delete(0, s("a"))));
     ops.push(LOp::Api(Op::Delete(0, s("zzz"))));
